@@ -1,9 +1,9 @@
 ------------------------------ MODULE DumpLangs ------------------------------
 (* Prints the language library as JSON (one line per language).               *)
-EXTENDS Langs, Json
+EXTENDS Langs, Tok, Json
 VARIABLE k
 Init == k = 0
 Next == k < Len(Library) /\ k' = k + 1
 Spec == Init /\ [][Next]_k
-Emit == k > 0 => PrintT(ToJson([kind |-> "lang", name |-> LibraryNames[k], wf |-> WellFormed(Library[k]), lang |-> Library[k]]))
+Emit == k > 0 => PrintT(ToJson([kind |-> "lang", name |-> LibraryNames[k], wf |-> WellFormed(Library[k]), lang |-> Library[k], toks |-> LangToks(Library[k])]))
 =============================================================================
